@@ -197,7 +197,7 @@ _scratch = None
 def scratch():
     global _scratch
     if _scratch is None:
-        _scratch = tempfile.mkdtemp(prefix="msw-", dir="/dev/shm")
+        _scratch = tempfile.mkdtemp(prefix="msw-%s-" % os.environ.get("MSW_TAG", "x"), dir="/dev/shm")
         subprocess.run(["rsync", "-a", "--exclude", ".git", REPO + "/", _scratch + "/"], check=True)
     return _scratch
 
@@ -358,7 +358,7 @@ def recheck():
 
 def _cleanup():
     for d in os.listdir("/dev/shm"):
-        if d.startswith("msw-"):
+        if d.startswith("msw-%s-" % os.environ.get("MSW_TAG", "x")):
             shutil.rmtree(os.path.join("/dev/shm", d), ignore_errors=True)
 
 
@@ -396,4 +396,5 @@ def report():
 
 
 if __name__ == "__main__":
+    os.environ.setdefault("MSW_TAG", str(os.getpid()))
     {"gen": gen, "tests": tests, "checks": checks, "recheck": recheck, "report": report}[sys.argv[1]]()
